@@ -305,6 +305,24 @@ func c18Grid(tier string) [][4]int {
 	return g
 }
 
+// c18WideGrid: components at 16 / 32 bit boundaries (round 12: Higher() rewritten as the comparison of a
+// key with 16 bits per component)
+func c18WideGrid() [][4]int {
+	maj := []int{6, 7}
+	rest := []int{0, 1, 65535, 65536, 65537, 1 << 32}
+	var g [][4]int
+	for _, a := range maj {
+		for _, b := range rest {
+			for _, c := range rest {
+				for _, d := range rest {
+					g = append(g, [4]int{a, b, c, d})
+				}
+			}
+		}
+	}
+	return g
+}
+
 func ver(t [4]int) *couchbase.Version {
 	return &couchbase.Version{Major: t[0], Minor: t[1], Patch: t[2], Build: t[3]}
 }
@@ -320,54 +338,60 @@ func c18Pure(tier string) *PureResult {
 		}
 		mu.Unlock()
 	}
-	// pairs: trichotomy against the lexicographic reference, antisymmetry, Lower definition
-	for _, a := range g {
-		for _, b := range g {
-			va, vb := ver(a), ver(b)
-			h, l, e := va.Higher(vb), va.Lower(vb), va.Equal(vb)
-			res.Evaluations++
-			if a != b {
-				res.Distinct++
+	// the order laws are checked on the gate grid and on a second grid whose components sit at binary word
+	// boundaries (a comparison that packs the tuple into bit fields of one integer is only wrong there)
+	order := func(g [][4]int) {
+		// pairs: trichotomy against the lexicographic reference, antisymmetry, Lower definition
+		for _, a := range g {
+			for _, b := range g {
+				va, vb := ver(a), ver(b)
+				h, l, e := va.Higher(vb), va.Lower(vb), va.Equal(vb)
+				res.Evaluations++
+				if a != b {
+					res.Distinct++
+				}
+				n := 0
+				for _, x := range []bool{h, l, e} {
+					if x {
+						n++
+					}
+				}
+				if n != 1 {
+					add(fmt.Sprintf("trichotomy fails for %v vs %v: higher=%v lower=%v equal=%v", a, b, h, l, e))
+				}
+				if h != lexLess(b, a) || l != lexLess(a, b) || e != (a == b) {
+					add(fmt.Sprintf("%v vs %v: higher=%v lower=%v equal=%v disagrees with the lexicographic order", a, b, h, l, e))
+				}
+				if h && vb.Higher(va) {
+					add(fmt.Sprintf("antisymmetry fails for %v, %v", a, b))
+				}
 			}
-			n := 0
-			for _, x := range []bool{h, l, e} {
-				if x {
+		}
+		// triples: transitivity
+		parallelFor(0, len(g)-1, func(i int) {
+			a := ver(g[i])
+			var n int64
+			for _, bt := range g {
+				b := ver(bt)
+				ab := a.Higher(b)
+				for _, ct := range g {
+					c := ver(ct)
 					n++
+					if ab && b.Higher(c) && !a.Higher(c) {
+						add(fmt.Sprintf("transitivity fails: %v > %v > %v but not %v > %v", g[i], bt, ct, g[i], ct))
+					}
+					if a.Equal(b) && b.Equal(c) && !a.Equal(c) {
+						add(fmt.Sprintf("equality not transitive: %v %v %v", g[i], bt, ct))
+					}
 				}
 			}
-			if n != 1 {
-				add(fmt.Sprintf("trichotomy fails for %v vs %v: higher=%v lower=%v equal=%v", a, b, h, l, e))
-			}
-			if h != lexLess(b, a) || l != lexLess(a, b) || e != (a == b) {
-				add(fmt.Sprintf("%v vs %v: higher=%v lower=%v equal=%v disagrees with the lexicographic order", a, b, h, l, e))
-			}
-			if h && vb.Higher(va) {
-				add(fmt.Sprintf("antisymmetry fails for %v, %v", a, b))
-			}
-		}
+			mu.Lock()
+			res.Evaluations += n
+			mu.Unlock()
+		})
 	}
-	// triples: transitivity
-	parallelFor(0, len(g)-1, func(i int) {
-		a := ver(g[i])
-		var n int64
-		for _, bt := range g {
-			b := ver(bt)
-			ab := a.Higher(b)
-			for _, ct := range g {
-				c := ver(ct)
-				n++
-				if ab && b.Higher(c) && !a.Higher(c) {
-					add(fmt.Sprintf("transitivity fails: %v > %v > %v but not %v > %v", g[i], bt, ct, g[i], ct))
-				}
-				if a.Equal(b) && b.Equal(c) && !a.Equal(c) {
-					add(fmt.Sprintf("equality not transitive: %v %v %v", g[i], bt, ct))
-				}
-			}
-		}
-		mu.Lock()
-		res.Evaluations += n
-		mu.Unlock()
-	})
+	order(g)
+	order(c18WideGrid())
 	// parser
 	for _, t := range g {
 		for _, form := range []string{"%d.%d.%d-%d-enterprise", "%d.%d.%d-%d-community", "%d.%d.%d-%d"} {
